@@ -150,6 +150,12 @@ def shapes(tier):
     out.append({'initial': INITIAL + [three], 'deviations': d1, 'early': False,
                 'script': [('query', 0, 'id_from_pos_merkle', (3, 2)), ('query', 0, 'id_from_pos', (3, 2)),
                            ('reorg', 1, [dict(three, cb='B'), cbA])]})
+    # a by-height request for a replaced height placed between the replacement block's advance and its flush (the
+    # in-memory counts already cover it, the file still holds the orphaned block's hashes)
+    out.append({'initial': INITIAL + [payA], 'deviations': d1, 'early': False,
+                'script': [(('when', 'bp:advance_block:result', 2), ('query', 0, 'id_from_pos', (4, 1))),
+                           (('when', 'bp:advance_block:result', 2), ('query', 0, 'id_from_pos_merkle', (4, 0))),
+                           ('reorg', 1, [payAB, cbB])]})
     # a by-height read that starts just before the undo (while the reorg range is being worked out) and may be delivered
     # (postponed) after the reorg handler cleared the caches but before the next notification
     out.append({'initial': INITIAL + [payA], 'deviations': d1, 'early': False, 'hold': True,
@@ -177,7 +183,7 @@ KERNELS = [
                     '_handle_chain_reorgs', 'tx_hashes_at_blockheight', 'ElectrumX.confirmed_and_unconfirmed_history',
                     'get_balance', 'hashX_listunspent', 'unconfirmed_history', 'transaction_id_from_pos',
                     'electrumx/server/db.py:DB.limited_history', 'all_utxos', 'tx_hashes_at_blockheight'],
-           bounds='9 (quick) / 20 (thorough) scripted stories with queries placed before, inside (right after '
+           bounds='10 (quick) / 22 (thorough) scripted stories with queries placed before, inside (right after '
                   'backup_block returns) and after reorganisation windows or racing a block; interleaving as in C07 '
                   '(1 / 2 deviations)',
            outside='as C07; cache eviction by capacity (1000 entries)',
